@@ -47,6 +47,7 @@ func split(n uint64) uint64 {
 // Tree is a list of leaf hashes with memoised subtree roots.
 type Tree struct {
 	Leaves []Hash
+	mu     sync.Mutex
 	memo   map[[2]int]Hash
 }
 
@@ -69,12 +70,17 @@ func (t *Tree) mth(lo, hi int) Hash {
 		return t.Leaves[lo]
 	}
 	key := [2]int{lo, hi}
-	if h, ok := t.memo[key]; ok {
+	t.mu.Lock()
+	h, ok := t.memo[key]
+	t.mu.Unlock()
+	if ok {
 		return h
 	}
 	k := int(split(uint64(n)))
-	h := NodeHash(t.mth(lo, lo+k), t.mth(lo+k, hi))
+	h = NodeHash(t.mth(lo, lo+k), t.mth(lo+k, hi))
+	t.mu.Lock()
 	t.memo[key] = h
+	t.mu.Unlock()
 	return h
 }
 
